@@ -555,7 +555,7 @@ Bne = make_branch("bne", 0b001, False)
 Blt = make_branch("blt", 0b100, False)
 Bgt = make_branch("bgt", 0b100, True)
 Bge = make_branch("bge", 0b101, False)
-Ble = make_branch("bge", 0b101, True)
+Ble = make_branch("ble", 0b101, True)
 Bltu = make_branch("bltu", 0b110, False)
 Bgtu = make_branch("bgtu", 0b110, True)
 Bgeu = make_branch("bgeu", 0b111, False)
